@@ -73,6 +73,7 @@ type Term struct {
 	wide   *big.Int
 	name   string
 	store  *Store
+	lo, hi *big.Int // value range (integers), nil when unknown
 }
 
 func (t *Term) isConst() bool { return t.op == OConst }
@@ -105,6 +106,7 @@ func (s *Store) mk(t *Term) *Term {
 	s.nextID++
 	t.id = s.nextID
 	t.store = s
+	computeRange(t)
 	s.terms[k] = t
 	return t
 }
@@ -296,6 +298,8 @@ func (s *Store) Bin(op Op, x, y *Term) *Term {
 	if x.kind == KWide {
 		if x.isConst() && y.isConst() {
 			switch op {
+			case OMul:
+				return s.Wide(new(big.Int).Mul(x.wide, y.wide))
 			case OAdd:
 				return s.Wide(new(big.Int).Add(x.wide, y.wide))
 			case OSub:
@@ -427,6 +431,9 @@ func (s *Store) Lt(x, y *Term) *Term {
 		if x.isConst() && y.isConst() {
 			return s.Bool(x.f64Val() < y.f64Val())
 		}
+		if y.isConst() && y.f64Val() <= 0 && floatNonNeg(x) {
+			return s.Bool(false) // a non-negative product / quotient is never below zero
+		}
 		return s.mk(&Term{op: OFLt, kind: KBool, a: []*Term{x, y}})
 	}
 	if x.isConst() && y.isConst() {
@@ -434,6 +441,14 @@ func (s *Store) Lt(x, y *Term) *Term {
 	}
 	if x == y {
 		return s.Bool(false)
+	}
+	if x.lo != nil && y.lo != nil {
+		if x.hi.Cmp(y.lo) < 0 {
+			return s.Bool(true)
+		}
+		if x.lo.Cmp(y.hi) >= 0 {
+			return s.Bool(false)
+		}
 	}
 	if x.kind == KInt && !x.signed && y.isConst() && y.c == 0 {
 		return s.Bool(false)
@@ -452,6 +467,14 @@ func (s *Store) Le(x, y *Term) *Term {
 	}
 	if x == y {
 		return s.Bool(true)
+	}
+	if x.lo != nil && y.lo != nil {
+		if x.hi.Cmp(y.lo) <= 0 {
+			return s.Bool(true)
+		}
+		if x.lo.Cmp(y.hi) > 0 {
+			return s.Bool(false)
+		}
 	}
 	if x.kind == KInt && !x.signed && x.isConst() && x.c == 0 {
 		return s.Bool(true)
@@ -792,10 +815,26 @@ func (e *Emitter) bodyInt(t *Term, a []string) string {
 			return "(- " + a[0] + " " + a[1] + ")"
 		case OConv:
 			return a[0]
+		case OMul:
+			return "(* " + a[0] + " " + a[1] + ")"
+		case OLt:
+			return "(< " + a[0] + " " + a[1] + ")"
+		case OLe:
+			return "(<= " + a[0] + " " + a[1] + ")"
 		}
 		panic(encErr(fmt.Sprintf("wide op %d", t.op)))
 	}
 	M := pow2(bits).String()
+	if noWrap(t) {
+		switch t.op {
+		case OAdd:
+			return "(+ " + a[0] + " " + a[1] + ")"
+		case OSub:
+			return "(- " + a[0] + " " + a[1] + ")"
+		case OMul:
+			return "(* " + a[0] + " " + a[1] + ")"
+		}
+	}
 	switch t.op {
 	case OAdd:
 		if !signed {
@@ -830,6 +869,9 @@ func (e *Emitter) bodyInt(t *Term, a []string) string {
 		return "(<= " + a[0] + " " + a[1] + ")"
 	case OConv:
 		x := t.a[0]
+		if x.lo != nil && within(x.lo, x.hi, bits, signed) {
+			return a[0]
+		}
 		if x.kind == KInt {
 			// identity when the source range is inside the target range
 			if !x.signed && (bits > x.bits || (bits == x.bits && !signed)) {
@@ -1078,4 +1120,170 @@ func (t *Term) String() string {
 		return t.name + "(" + strings.Join(ss, ", ") + ")"
 	}
 	return fmt.Sprintf("op%d", t.op)
+}
+
+// ---- cheap interval analysis (used to drop wrap-around ite/mod when it cannot happen and
+// to fold comparisons) ----
+
+func typeRange(bits uint8, signed bool) (*big.Int, *big.Int) {
+	if signed {
+		h := pow2(bits - 1)
+		return new(big.Int).Neg(h), new(big.Int).Sub(h, big.NewInt(1))
+	}
+	return big.NewInt(0), new(big.Int).Sub(pow2(bits), big.NewInt(1))
+}
+
+func within(lo, hi *big.Int, bits uint8, signed bool) bool {
+	tl, th := typeRange(bits, signed)
+	return lo.Cmp(tl) >= 0 && hi.Cmp(th) <= 0
+}
+
+func computeRange(t *Term) {
+	if t.kind != KInt && t.kind != KWide {
+		return
+	}
+	set := func(lo, hi *big.Int) {
+		if t.kind == KInt {
+			if !within(lo, hi, t.bits, t.signed) {
+				lo, hi = typeRange(t.bits, t.signed)
+			}
+		}
+		t.lo, t.hi = lo, hi
+	}
+	full := func() {
+		if t.kind == KInt {
+			t.lo, t.hi = typeRange(t.bits, t.signed)
+		}
+	}
+	arg := func(i int) (*big.Int, *big.Int, bool) {
+		a := t.a[i]
+		if a.lo == nil || a.hi == nil {
+			return nil, nil, false
+		}
+		return a.lo, a.hi, true
+	}
+	switch t.op {
+	case OConst:
+		if t.kind == KWide {
+			t.lo, t.hi = t.wide, t.wide
+			return
+		}
+		var v *big.Int
+		if t.signed {
+			v = big.NewInt(sval(t.c, t.bits))
+		} else {
+			v = new(big.Int).SetUint64(t.c)
+		}
+		t.lo, t.hi = v, v
+	case OVar, OUF, OF2I:
+		full()
+	case OAdd:
+		al, ah, ok1 := arg(0)
+		bl, bh, ok2 := arg(1)
+		if ok1 && ok2 {
+			set(new(big.Int).Add(al, bl), new(big.Int).Add(ah, bh))
+		} else {
+			full()
+		}
+	case OSub:
+		al, ah, ok1 := arg(0)
+		bl, bh, ok2 := arg(1)
+		if ok1 && ok2 {
+			set(new(big.Int).Sub(al, bh), new(big.Int).Sub(ah, bl))
+		} else {
+			full()
+		}
+	case OMul:
+		al, ah, ok1 := arg(0)
+		bl, bh, ok2 := arg(1)
+		if ok1 && ok2 && al.Sign() >= 0 && bl.Sign() >= 0 {
+			set(new(big.Int).Mul(al, bl), new(big.Int).Mul(ah, bh))
+		} else {
+			full()
+		}
+	case ODiv:
+		al, ah, ok1 := arg(0)
+		bl, _, ok2 := arg(1)
+		if ok1 && ok2 && al.Sign() >= 0 && bl.Sign() > 0 {
+			set(big.NewInt(0), new(big.Int).Quo(ah, bl))
+		} else {
+			full()
+		}
+	case ORem:
+		al, _, ok1 := arg(0)
+		bl, bh, ok2 := arg(1)
+		if ok1 && ok2 && al.Sign() >= 0 && bl.Sign() > 0 {
+			set(big.NewInt(0), new(big.Int).Sub(bh, big.NewInt(1)))
+		} else {
+			full()
+		}
+	case OConv:
+		al, ah, ok := arg(0)
+		if ok && (t.kind == KWide || within(al, ah, t.bits, t.signed)) {
+			t.lo, t.hi = al, ah
+		} else {
+			full()
+		}
+	case OIte:
+		al, ah, ok1 := arg(1)
+		bl, bh, ok2 := arg(2)
+		if ok1 && ok2 {
+			lo, hi := al, ah
+			if bl.Cmp(lo) < 0 {
+				lo = bl
+			}
+			if bh.Cmp(hi) > 0 {
+				hi = bh
+			}
+			t.lo, t.hi = lo, hi
+		} else {
+			full()
+		}
+	case OByte:
+		t.lo, t.hi = big.NewInt(0), big.NewInt(255)
+	case OAnd:
+		if t.a[1].isConst() && !t.signed {
+			t.lo, t.hi = big.NewInt(0), new(big.Int).SetUint64(t.a[1].c)
+		} else if t.a[0].isConst() && !t.signed {
+			t.lo, t.hi = big.NewInt(0), new(big.Int).SetUint64(t.a[0].c)
+		} else {
+			full()
+		}
+	case OShr:
+		al, ah, ok := arg(0)
+		if ok && al.Sign() >= 0 && t.a[1].isConst() && t.a[1].c < 64 {
+			set(big.NewInt(0), new(big.Int).Rsh(ah, uint(t.a[1].c)))
+		} else {
+			full()
+		}
+	default:
+		full()
+	}
+}
+
+// noWrap reports whether the exact result of op on the argument ranges fits the type.
+func noWrap(t *Term) bool {
+	if t.kind != KInt || len(t.a) < 1 {
+		return false
+	}
+	for _, a := range t.a {
+		if a.lo == nil {
+			return false
+		}
+	}
+	var lo, hi *big.Int
+	switch t.op {
+	case OAdd:
+		lo, hi = new(big.Int).Add(t.a[0].lo, t.a[1].lo), new(big.Int).Add(t.a[0].hi, t.a[1].hi)
+	case OSub:
+		lo, hi = new(big.Int).Sub(t.a[0].lo, t.a[1].hi), new(big.Int).Sub(t.a[0].hi, t.a[1].lo)
+	case OMul:
+		if t.a[0].lo.Sign() < 0 || t.a[1].lo.Sign() < 0 {
+			return false
+		}
+		lo, hi = new(big.Int).Mul(t.a[0].lo, t.a[1].lo), new(big.Int).Mul(t.a[0].hi, t.a[1].hi)
+	default:
+		return false
+	}
+	return within(lo, hi, t.bits, t.signed)
 }
